@@ -26,6 +26,10 @@ static SEQ: [u8; W] = {
 fn stub_fmt(_a: core::fmt::Arguments<'_>) -> String {
     String::new()
 }
+/// Panic-message formatting of slice-index failures dominates symbolic execution; the panic itself stays.
+fn stub_slice_index_fail(_s: usize, _e: usize, _l: usize) -> ! {
+    panic!("slice index out of range")
+}
 
 // tracing macros make kani-compiler 0.68 panic (intrinsics.rs:243); logging is irrelevant here.
 fn stub_interest(_c: &tracing::callsite::DefaultCallsite) -> tracing::subscriber::Interest {
@@ -153,6 +157,7 @@ fn queue_len(outgoing: &DatagramOutgoing) -> usize {
 #[kani::proof]
 #[kani::unwind(6)]
 #[kani::stub(alloc::fmt::format, stub_fmt)]
+#[kani::stub(core::slice::index::slice_index_fail, stub_slice_index_fail)]
 #[kani::stub(std::sync::Mutex::lock, stub_mutex_lock)]
 #[kani::stub(tracing::callsite::DefaultCallsite::interest, stub_interest)]
 #[kani::stub(tracing::__macro_support::__is_enabled, stub_is_enabled)]
@@ -181,6 +186,7 @@ fn c19_new_writer() {
 #[kani::proof]
 #[kani::unwind(6)]
 #[kani::stub(alloc::fmt::format, stub_fmt)]
+#[kani::stub(core::slice::index::slice_index_fail, stub_slice_index_fail)]
 #[kani::stub(std::sync::Mutex::lock, stub_mutex_lock)]
 #[kani::stub(tracing::callsite::DefaultCallsite::interest, stub_interest)]
 #[kani::stub(tracing::__macro_support::__is_enabled, stub_is_enabled)]
@@ -308,6 +314,7 @@ fn load_one<const LEN_HI: usize, const SP_HI: usize, const MAX_HI: u64>(exclude_
 #[kani::proof]
 #[kani::unwind(6)]
 #[kani::stub(alloc::fmt::format, stub_fmt)]
+#[kani::stub(core::slice::index::slice_index_fail, stub_slice_index_fail)]
 #[kani::stub(std::sync::Mutex::lock, stub_mutex_lock)]
 #[kani::stub(tracing::callsite::DefaultCallsite::interest, stub_interest)]
 #[kani::stub(tracing::__macro_support::__is_enabled, stub_is_enabled)]
@@ -327,6 +334,7 @@ fn c19_load_one() {
 #[kani::proof]
 #[kani::unwind(6)]
 #[kani::stub(alloc::fmt::format, stub_fmt)]
+#[kani::stub(core::slice::index::slice_index_fail, stub_slice_index_fail)]
 #[kani::stub(std::sync::Mutex::lock, stub_mutex_lock)]
 #[kani::stub(tracing::callsite::DefaultCallsite::interest, stub_interest)]
 #[kani::stub(tracing::__macro_support::__is_enabled, stub_is_enabled)]
@@ -346,6 +354,7 @@ fn c19_load_one_twin() {
 #[kani::proof]
 #[kani::unwind(6)]
 #[kani::stub(alloc::fmt::format, stub_fmt)]
+#[kani::stub(core::slice::index::slice_index_fail, stub_slice_index_fail)]
 #[kani::stub(std::sync::Mutex::lock, stub_mutex_lock)]
 #[kani::stub(tracing::callsite::DefaultCallsite::interest, stub_interest)]
 #[kani::stub(tracing::__macro_support::__is_enabled, stub_is_enabled)]
@@ -387,6 +396,7 @@ fn io_kind(e: &io::Error) -> Option<ErrorKind> {
 #[kani::proof]
 #[kani::unwind(6)]
 #[kani::stub(alloc::fmt::format, stub_fmt)]
+#[kani::stub(core::slice::index::slice_index_fail, stub_slice_index_fail)]
 #[kani::stub(std::sync::Mutex::lock, stub_mutex_lock)]
 #[kani::stub(tracing::callsite::DefaultCallsite::interest, stub_interest)]
 #[kani::stub(tracing::__macro_support::__is_enabled, stub_is_enabled)]
